@@ -22,10 +22,19 @@ for d in sorted(glob.glob(os.path.join(here, "seeded", "*"))):
         site = pm.group(1).replace("ufl/", "")
     res = []
     for k, v in sorted(m.get("checks", {}).items()):
-        res.append(f"{k.split('@')[0]}: {v['verdict']}")
-    later = m.get("later", [])
-    rows.append((m["name"], m["breaks"], site, m.get("summary", ""), "; ".join(res), "; ".join(later)))
-print("| seeded change | breaks | site | what it is / needs | first run | after strengthening |")
+        res.append(f"{k.split('@')[0]} {v['verdict']}")
+    later = []
+    for k, v in sorted(m.get("rechecked", {}).items()):
+        if isinstance(v, dict):
+            keys = ", ".join("`" + x.split("/", 1)[1] + "`" for x in v.get("keys", [])[:1] if "/" in x)
+            later.append(f"{k} {v['verdict']} ({keys})" if keys else f"{k} {v['verdict']}")
+    title = ""
+    for ln in notes.splitlines():
+        if ln.startswith("#"):
+            title = re.sub(r"^#+\s*(C\d+_\d+)?\s*[-:–—]*\s*", "", ln).strip()
+            break
+    rows.append((m["name"], m["breaks"], site, title[:150], "; ".join(res), "; ".join(later)))
+print("| seeded change | breaks | site (under ufl/) | what it is | when first filed | now (quick tier; example keys) |")
 print("|---|---|---|---|---|---|")
 for r in rows:
     print("| " + " | ".join(x.replace("|", "/") for x in r) + " |")
